@@ -184,7 +184,7 @@ def run(tier, seed):
     }
     bad = [k for k, v in need.items() if not v]
     if bad:
-        raise vlib.ToolError(f"vacuity: {bad}")
+        c.defer(f"vacuity: {bad}")
     allregs = regs + recs2 + rr
     c.cov["evaluations"] = len(allregs) + s1.get("pre_registrations", 0)
     c.cov["distinct_nontrivial"] = len({repr((r["reg"], r.get("state"), r.get("store"))) for r in allregs
